@@ -29,8 +29,8 @@ def stalled(ctx, binary):
     keep, flagged = [], 0
     for k in sorted(byplan):
         evs = byplan[k]
-        plan = plans[k]
-        tag = "%s/%s/%s" % (plan["stall"], plan["shutdown"], plan["after"])
+        plan = plans[k % len(plans)]
+        tag = "%s/%s/%s%s" % (plan["stall"], plan["shutdown"], plan["after"], "/tls" if k >= len(plans) else "")
         end = [e for e in evs if e["ev"] == "end"]
         prob = [e for e in evs if e["ev"] == "problem"]
         whats = []
@@ -47,8 +47,19 @@ def stalled(ctx, binary):
                 whats.append(("goroutines-left", "%d goroutine(s) of the server are left 10 s after Shutdown was called" % e["left"]))
             if e["serve"] != "ErrShutdown":
                 whats.append(("serve-result", "Serve: %s" % e["serve"]))
+        # a request whose handler ended before the grace period was over, for a client that was reading, is answered
+        stalled_now, graced = False, False
         for e in evs:
-            if e["ev"] == "shutdown-return" and e["after_ms"] > 3100:
+            if e["ev"] in ("stall", "resume"):
+                stalled_now = e["ev"] == "stall"
+            if e["ev"] == "grace":
+                graced = True
+            if e["ev"] == "handler-exit" and not stalled_now and not graced and end and not end[0]["answered"]:
+                whats.append(("completed-request-not-answered", "the handler ended before the grace period was over, the client was reading, and no response arrived"))
+        for e in evs:
+            # (behind TLS, closing a connection whose peer does not read takes crypto/tls up to 5 s more: its close_notify alert is written
+            # with a deadline of its own)
+            if e["ev"] == "shutdown-return" and e["after_ms"] > (8200 if k >= len(plans) else 3100):
                 whats.append(("returns-long-after-the-grace-period", "Shutdown returned %d ms after the call" % e["after_ms"]))
         if whats:
             flagged += 1
@@ -57,8 +68,8 @@ def stalled(ctx, binary):
         keep += [{kk: v for kk, v in e.items() if kk in ("ev", "sd", "answered", "hooks")} for e in evs]
     if rc != 0 and not flagged:
         raise vlib.Inconclusive("stall driver failed rc=%s\n%s" % (rc, out[-3000:]))
-    if len(byplan) != len(plans) and not flagged:
-        raise vlib.Inconclusive("stall driver replayed %d of %d plans" % (len(byplan), len(plans)))
+    if len(byplan) != 2 * len(plans) and not flagged:
+        raise vlib.Inconclusive("stall driver replayed %d of %d plans" % (len(byplan), 2 * len(plans)))
     if keep:
         vpath = os.path.join(ctx.work, "stall_validate.ndjson")
         vlib.write_ndjson(vpath, keep)
@@ -72,7 +83,7 @@ def stalled(ctx, binary):
             pos = int(m.group(1))
             start = max(k for k in range(pos) if keep[k]["ev"] == "reset")
             raise vlib.Inconclusive("model drift: TLC rejects a stalled-client run without a property-level anomaly at event %s; run so far: %s" % (json.dumps(keep[pos - 1]), json.dumps(keep[start:pos])[:1500]))
-    return len(plans)
+    return 2 * len(plans)
 
 
 def run(ctx):
